@@ -11615,6 +11615,11 @@ class TensorDictBase(MutableMapping):
             _inv_caller = LAST_OP_MAPS.get(last_op)
             if _inv_caller is not None:
                 prev_ref = out_wr()
+                if prev_ref is None and last_op != "to_module":
+                    # the tensordict the method was called on does not exist any more
+                    # (e.g. `with make_td().transpose(0, 1) as t:`): there is nothing
+                    # to write back to
+                    return self
                 return _inv_caller(self, args, kwargs, prev_ref)
             else:
                 raise NotImplementedError(f"Unrecognised function {last_op}.")
